@@ -49,16 +49,16 @@ def run(repo: Repo) -> Result:
     # ---- R2
     info = {"config_cls": None, "field": None}
     if anchors.filter_cls is not None and anchors.pred_names:
-        for pred in sorted(anchors.pred_names):
+        for pred in sorted(anchors.pred_methods or anchors.pred_names):
             got = c08_match.run(repo, res, "C08.R2", anchors.filter_cls, pred)
             if got.get("config_cls") is not None or got.get("field"):
                 info = got
     else:
         res.undecide("C08.R2", f"{anchors.entry.relpath}::{anchors.entry.qualname}", "the class of the exclusion predicate could not be identified from the scan", where(anchors.entry, anchors.entry.node))
     if anchors.filter_cls is not None and info.get("config_cls") is None:
-        info = _config_of(repo, T, anchors.filter_cls)
+        info = {**_config_of(repo, T, anchors.filter_cls), "none_ok": info.get("none_ok")}
     # ---- R4
-    converters = c08_plumb.run(repo, res, "C08.R4", anchors.scan_cls, anchors.filter_cls, info.get("config_cls"), info.get("field"))
+    converters = c08_plumb.run(repo, res, "C08.R4", anchors.scan_cls, anchors.filter_cls, info.get("config_cls"), info.get("field"), bool(info.get("none_ok")))
     # ---- R1
     convs: list[FuncInfo] = []
     for fq in converters:
